@@ -72,6 +72,15 @@ HINTS = {
          'where both variants give plausible numbers and the existing tests use symmetric or square inputs (equal numbers of rows and '
          'columns, lon == lat, identical forecasts, a single magnitude bin) that hide the exchange. The three seeds must be three '
          'different kinds of confusion in three different functions.',
+    '10': 'Aim at the EXCEPTIONAL AND FALLBACK PATHS of the code: an `except` clause broadened (bare / Exception) so that it also swallows the '
+          'error that signals a real violation, or narrowed so that the documented fallback is no longer reached; an error turned into a '
+          'default value, a warning or a silently skipped record; the wrong exception type raised, so that the handler one or two frames up '
+          '(which decides between "reject", "not-valid" and "retry another format") takes the other branch; a `try` block extended over one '
+          'more statement whose failure now triggers the fallback; the order of a check and the side effect it protects exchanged; a '
+          '`finally` / cleanup / reset that no longer runs on the error path; a fallback branch (second time format, second reader, '
+          'default bins, default region, `.get(key, default)`) that silently computes with something else than what the caller supplied; '
+          'validation moved after the point where the invalid value was already used or stored. The ordinary, error-free path must stay '
+          'exactly as it is; the three seeds must use three different mechanisms of this family in three different functions.',
 }
 prop = None
 for line in open(os.path.join(HERE, 'properties.jsonl')):
